@@ -59,6 +59,27 @@ CHECKS.update({
               note="colour and background are compared as the value in effect (innermost colour tag; nearest enclosing painted span background); SRT text that looks like markup is not generated for tag clauses (no escape mechanism)", ref="3/C07"),
 })
 
+CHECKS.update({
+  "C04": dict(cat="exploration", tech="bounded-exhaustive enumeration of TTML documents (timing skeletons with <= 5/6 elements over par/seq x begin/dur/end, time-expression grid, style graphs, attribute value grids, mixed content, ruby) against an independent TTML2 interpreter; single-deviation exploration of malformed attributes",
+              text="every generated XML document is read by the real IMSC reader and its timed tree and specified styles compared, at every breakpoint and midpoint, with a direct interpreter of the XML (R_ttml); each well-formed seed with exactly one attribute replaced by each malformed value must read like the document without the attribute, log, and raise nothing",
+              note="reference interpreter mc/refttml.py (appendix A of DESIGN.md) gated by hand examples and the repository's pinned expectations; the abstraction is computed from the model by parent-relative accumulation, independent of ttconv.isd", ref="3/C04"),
+  "C08": dict(cat="model_checking", tech="explicit-state BFS over protocol token histories (pop-on / roll-up / paint-on automata) with canonical states = (automaton, reference decoder, projection of the real SccContext); every history replayed on the real reader and compared with a reference CEA-608 decoder under the stable/transit/timing oracle",
+              text="all token histories accepted by the three caption protocol automata to depth 7 (quick) / 9 (thorough) are rendered as SCC text, read by the real reader and compared frame window by frame window with the displayed memory of a reference decoder; timing is judged within the transmission window the statement grants",
+              note="reference decoder mc/ref608dec.py (DESIGN.md appendix B) gated by hand examples and the repository's pinned reader tests; columns, textAlign heuristics and blank-cell attributes are not compared", ref="3/C08"),
+  "C10": dict(cat="model_checking", tech="explicit-state search over all line-token sequences of the SRT file-level machine (<= 7/8 tokens) plus bounded-exhaustive cue grammar families (all 1000 millisecond values, tag trees, line layouts) against an independent strict parser; writer round trip",
+              text="every line-token sequence is fed to the real reader (no internal exception; grammatical files give the independent parser's cue list); every cue of the grammar families must give exact rational times, lines and per-character style flags; SRT writer output is read back",
+              note="strict parser mc/strictparse.py; files reach the reader as tt convert opens them (text mode, universal newlines)", ref="3/C10"),
+  "C11": dict(cat="model_checking", tech="explicit-state search over line-token sequences of the WebVTT file-level machine plus bounded-exhaustive cue-text and cue-setting families (full product of vertical x line x position x size x align) against an independent strict parser and the WebVTT geometry rules; writer round trip",
+              text="every line-token sequence and every cue of the cue-text / settings families is read by the real reader and compared with the strict parser: exact times, payload lines, tag scopes, inline timestamps, and one geometry clause each for inside-root, display alignment, text alignment, anchor, region sharing",
+              note="strict parser mc/strictparse.py; geometry clauses that are derived readings (anchor, position, size) are isolated from those that are literally the statement", ref="3/C11"),
+  "C15": dict(cat="model_checking", tech="explicit-state BFS over histories of public model mutator calls on real objects in four overlapping sub-universes (structure, region registry, ruby containers, styles); invariant in every state, step oracle against a boring reference model on every transition",
+              text="all call sequences to depth 3-4 (structure slices to closure) with valid, ill-typed and cross-document arguments; in every reached state links/getters agree, the graph is acyclic with single parents and one document per tree, content model and ruby patterns hold, region references are registered, stored values are valid; a rejected single-element call leaves the state unchanged, an accepted one changes the reference model as advertised",
+              note="reference model mc/modelref.py; validity of stored values judged by an independent predicate, not the library's validate", ref="3/C15"),
+  "C19": dict(cat="model_checking", tech="explicit-state search over job histories in one interpreter (canon = fingerprint of process-global state) plus bounded-exhaustive option/configuration products; byte comparison of tt convert output with the library composition, fresh-interpreter references, PYTHONHASHSEED 0..3",
+              text="for every input x output format, documented configuration key x valid/boundary values, filter lists, type-by-extension/--itype/--otype modes and config/config_file combinations the bytes written by ttconv.tt.main equal the composition of reader, filters and writer; every documented key x invalid menu must be rejected without output; every job history of <= 2/3 jobs gives the bytes of the job run first in a fresh interpreter; 30 jobs under 4 hash seeds give equal bytes",
+              note="probe document filters registered through the public DocumentFilter mechanism make filter order/multiplicity observable; unknown filter names and unknown keys are not demanded to be rejected (statement/README silent)", ref="3/C19"),
+})
+
 PENDING = {}
 
 
